@@ -311,6 +311,29 @@ def run(ctx):
                 continue
             if not close_lists(got, expected, 1e-9):
                 ctx.add_failing("fit-output-differs", inp, observed=str(got[:8]), expected=str(expected[:8]), clause="'fit' the fitted parameters and statistics of fit_circuit with the same settings")
+        # fit with several data sets in one invocation: every one is fitted from the initial values of the given code
+        for j in range(3 if big else 1):
+            specs = [files[0], "<CIRCUIT_2:noise=0.1,seed=3>"] if j % 2 == 0 else ["<CIRCUIT_2:noise=0.1,seed=3>", "<CIRCUIT_5:noise=0.05,seed=4>"]
+            cdc = "R{R=50}(R{R=300}Q{Y=1e-5,n=0.9})"
+            method, weight = rnd.choice(["leastsq", "least_squares"]), rnd.choice(["boukamp", "modulus"])
+            argv = ["fit", cdc] + specs + ["--method", method, "--weight", weight, "--output-format", "csv", "--num-procs", 1, "--suppress-progress"]
+            inp = {"argv": [str(a) for a in argv]}
+            ctx.note_case(tuple(inp["argv"]))
+            ctx.count("cli:fit:several-inputs")
+            try:
+                text = run_cli(argv)
+                parts = text.split("CDC:")[1:]
+                if len(parts) != len(specs):
+                    raise ValueError(f"{len(parts)} reports for {len(specs)} inputs")
+                for spec, part in zip(specs, parts):
+                    blocks = [b for b in part.strip().split("\n\n") if b.strip()]
+                    got = numbers_csv(blocks[1]) + numbers_csv(blocks[2])
+                    fit = fit_circuit(parse_cdc(cdc), api_data(spec), method=method, weight=weight, max_nfev=-1, num_procs=1, timeout=0)
+                    expected = df_numbers(fit.to_parameters_dataframe()) + df_numbers(fit.to_statistics_dataframe())
+                    if not close_lists(got, expected, 1e-9):
+                        ctx.add_failing("fit-output-differs", dict(inp, data_set=spec), observed=str(got[:8]), expected=str(expected[:8]), clause="'fit' the fitted parameters and statistics of fit_circuit with the same settings (every data set of the invocation)")
+            except Exception as x:  # noqa
+                ctx.add_failing("cli-raises", inp, observed=f"{type(x).__name__}: {x}"[:200], expected="output", clause="'fit' the fitted parameters and statistics of fit_circuit with the same settings")
         # drt
         for j in range(8 if big else 3):
             spec = rnd.choice(files + ["<CIRCUIT_5:noise=0.05,seed=11>"])
